@@ -83,6 +83,7 @@ def c01(tr, cx):
         ids = []
         for nid, nd in s['nodes'].items():
             here = [i['id'] for i in nd['inds']]
+            if here != nd['qids']: tr.v('C01', 'all_individuals_view_differs_from_queues', (k, s['t'], nid, here[:8], nd['qids'][:8]))
             if nd['n'] != len(here):
                 tr.v('C01', 'count_mismatch', (k, s['t'], nid, nd['n'], len(here), s['evnode'], s['evtype']))
             for i in nd['inds']:
@@ -493,7 +494,8 @@ def c08(tr, cx):
                 j = joined.get((nid, i['id']))
                 if j is None: continue
                 tr.count('C08.queue_positions_checked')
-                pl = i.get('plist', i['prio'])     # the engine's priority list the customer sits in
+                pl = i.get('plist')     # the engine's priority list the customer sits in
+                if pl is None: pl = i['prio']
                 if pl in last and last[pl][0] > j:
                     tr.v('C08', 'queue_not_in_join_order', (k, s['t'], nid, last[pl][1], i['id'], s['evnode'], s['evtype']))
                     break
